@@ -153,7 +153,7 @@ class ExpandedTraceback:
         """
         Filter out unnecessary frames
         """
-        if not self.exception:
+        if self.exception is None:
             return []
         cl, exc, tb = self.exc_info
         while tb and self._is_relevant_tb_level(tb):
